@@ -324,3 +324,328 @@ func c15Coverage(c *Ctx) {
 		}
 	}
 }
+
+// ---------- mutation-sweep triage additions ----------
+
+func init() {
+	c17CoverageHook = c17Coverage
+	prev13 := c13CoverageHook
+	c13CoverageHook = func(c *Ctx) { prev13(c); c13LocationFixup(c) }
+	prev15 := c15CoverageHook
+	c15CoverageHook = func(c *Ctx) { prev15(c); c15CallbackDelivers(c) }
+}
+
+var c17CoverageHook func(c *Ctx)
+
+func c13CallsNamed(fn *ssa.Function, name string) map[ssa.Value]bool {
+	out := map[ssa.Value]bool{}
+	for _, ci := range CallsTo(fn, name) {
+		if v := ci.Value(); v != nil {
+			for a := range Aliases(v) {
+				out[a] = true
+			}
+		}
+	}
+	return out
+}
+
+// c13LocationFixup: the upload Location is used as returned; its Host may be
+// rewritten only under the documented work-around: request port 443, same
+// host name, Location without port.  Also (C17.R4): the credential of the
+// POST is reused for the PUT so that a one-shot body is not lost to a 401.
+func c13LocationFixup(c *Ctx) {
+	const R = "C13.R4.location-host-fixup-guarded"
+	c.Expect(R, 1)
+	for _, f := range c.P.FuncsOfPkg(c13PkgRemote) {
+		// any rewrite of a URL's host in the package (the fix-up may live in a helper given the Location)
+		hostStores := c13FieldStores(f, "net/url", "URL", "Host", nil)
+		if len(hostStores) == 0 {
+			continue
+		}
+		fn := FnName(f)
+		loc := map[ssa.Value]bool{}
+		for _, st := range hostStores {
+			for a := range Aliases(st.Addr.(*ssa.FieldAddr).X) {
+				loc[a] = true
+			}
+		}
+		ports, hosts := c13CallsNamed(f, "(*net/url.URL).Port"), c13CallsNamed(f, "(*net/url.URL).Hostname")
+		locPorts := map[ssa.Value]bool{}
+		for _, ci := range CallsTo(f, "(*net/url.URL).Port") {
+			if loc[ci.Common().Args[0]] {
+				for a := range Aliases(ci.Value()) {
+					locPorts[a] = true
+				}
+			}
+		}
+		is443 := c13FactEdgesOfConds(f, func(cond ssa.Value) (bool, bool) {
+			op, other, ok := c13CmpNorm(cond, ports)
+			if s, isC := constString(other); ok && isC && s == "443" {
+				return op == token.EQL, op == token.NEQ
+			}
+			return false, false
+		})
+		sameHost := c13FactEdgesOfConds(f, func(cond ssa.Value) (bool, bool) {
+			op, other, ok := c13CmpNorm(cond, hosts)
+			if ok && hosts[other] {
+				return op == token.EQL, op == token.NEQ
+			}
+			return false, false
+		})
+		noPort := c13FactEdgesOfConds(f, c13EmptyStringClass(locPorts))
+		for _, st := range c13FieldStores(f, "net/url", "URL", "Host", func(b ssa.Value) bool { return loc[b] }) {
+			ok := len(is443) > 0 && len(sameHost) > 0 && len(noPort) > 0 &&
+				MustPass(st, newCut().Edges(is443...)) && MustPass(st, newCut().Edges(sameHost...)) && MustPass(st, newCut().Edges(noPort...))
+			c.Check(R, fn+"|Location.Host", st.Pos(), ok, ifelse(ok, "the Location's host is rewritten only when the request port is 443, the host names agree and the Location has no port",
+				"the upload Location's host can be rewritten outside the documented work-around (request port 443, same host name, Location without port): the PUT goes to an address the registry did not give"))
+		}
+	}
+}
+
+// c17CredentialReuse (C17.R4): the credential of the initial POST is reused for
+// the upload PUT so that a one-shot body is not lost to a 401 challenge.
+func c17CredentialReuse(c *Ctx) {
+	const RC = "C17.R4.one-shot-body"
+	for _, f := range c.P.FuncsOfPkg(c13PkgRemote) {
+		if len(CallsTo(f, "(*net/http.Response).Location")) == 0 {
+			continue
+		}
+		fn := FnName(f)
+		// credential reuse
+		var prevAuth []ssa.Value
+		for _, g := range CallsTo(f, "(net/http.Header).Get") {
+			if s, isC := constString(g.Common().Args[1]); isC && s == "Authorization" {
+				prevAuth = append(prevAuth, g.Value())
+			}
+		}
+		for _, site := range c13SendSites(f) {
+			ms, okM := c13MethodsOfSite(site, 2)
+			if !okM || len(ms) != 1 || ms[0] != "PUT" {
+				continue
+			}
+			req := c13AliasSet(c13RequestArg(site))
+			al := c13AliasSet(prevAuth...)
+			ct := newCut().Edges(c13FactEdgesOfConds(f, c13EmptyStringClass(al))...)
+			n := 0
+			for _, set := range CallsTo(f, "(net/http.Header).Set") {
+				a := set.Common().Args
+				if s, isC := constString(a[1]); !isC || s != "Authorization" || !al[a[2]] {
+					continue
+				}
+				// on the PUT request's header
+				for _, r := range Roots(a[0]) {
+					if ld, isLoad := r.(*ssa.UnOp); isLoad {
+						if fa, isFA := ld.X.(*ssa.FieldAddr); isFA && req[fa.X] {
+							ct.Instr(set.(ssa.Instruction))
+							n++
+						}
+					}
+				}
+			}
+			ok := n > 0 && MustPass(site.(ssa.Instruction), ct)
+			c.Check(RC, fn+"|credential-of-initial-request-reused", site.Pos(), ok, ifelse(ok, "the PUT carries the Authorization of the preceding POST when there was one",
+				"the upload PUT does not reuse the credential of the initial POST: with an auth client that does not cache tokens the PUT is answered 401 and a one-shot blob body cannot be sent again"))
+		}
+	}
+}
+
+// c15CallbackDelivers: the tag-schema referrers path (no exchange of its own)
+// hands every non-empty filtered list to the callback.
+func c15CallbackDelivers(c *Ctx) {
+	const R3 = "C15.R3.client-side-filter"
+	isDescSlice := func(t types.Type) bool {
+		s, ok := types.Unalias(t).Underlying().(*types.Slice)
+		return ok && c13IsNamed(s.Elem(), c13PkgOCI, "Descriptor")
+	}
+	for _, f := range c.P.FuncsOfPkg(c13PkgRemote) {
+		if len(c13SendSites(f)) > 0 || ErrResultIndex(f.Signature) < 0 {
+			continue
+		}
+		var cbs []ssa.CallInstruction
+		for _, call := range Calls(f, func(n string) bool { return strings.HasPrefix(n, "dyn:param:") }) {
+			if len(call.Common().Args) == 1 && isDescSlice(call.Common().Args[0].Type()) {
+				cbs = append(cbs, call)
+			}
+		}
+		if len(cbs) == 0 {
+			continue
+		}
+		ct := newCut().Calls(cbs)
+		direct := map[ssa.Value]bool{}
+		errs := map[ssa.Value]bool{}
+		for _, cb := range cbs {
+			z, _ := c13LenZeroEdges(f, c13AliasSet(cb.Common().Args[0]))
+			ct.Edges(z...)
+			for a := range c13AliasSet(cb.Value()) {
+				direct[a] = true
+			}
+		}
+		for _, ci := range Calls(f, func(string) bool { return true }) {
+			if e := ErrOf(ci); e != nil && ErrResultIndex(ci.Common().Signature()) >= 0 {
+				for a := range Aliases(e) {
+					errs[a] = true
+				}
+			}
+		}
+		ct.Edges(toleratedEdges(f, errs, []string{"~/errdef.ErrNotFound"})...) // no referrers index at all
+		bad := c13SuccessEscapes(f, f.Blocks[0], 0, ct, direct)
+		c.Check(R3, FnName(f)+"|callback-delivers-nonempty", f.Pos(), bad == nil, ifelse(bad == nil, "success is reported only after the callback received the list, the list was empty, or there is no referrers index",
+			"a non-empty referrers list can be dropped: success is returned without calling the callback"))
+	}
+}
+
+// c17Coverage: RoundTrip touches the response only when the round trip had no
+// error (net/http: resp is nil then); Retry-After is honoured.
+func c17Coverage(c *Ctx) {
+	c17CredentialReuse(c)
+	const R2 = "C17.R2.attempt-accounting"
+	const R3 = "C17.R3.retry-after-honoured"
+	c.Expect(R3, 2)
+	if RT := c.P.Fn(c17PkgRetry, "Transport.RoundTrip"); RT != nil {
+		for _, S := range c13SendSites(RT) {
+			resp, respErr := ResultOf(S, 0), ResultOf(S, 1)
+			if resp == nil || respErr == nil {
+				continue
+			}
+			ral, eal := Aliases(resp), Aliases(respErr)
+			nilE, _, _ := NilTests(RT, eal)
+			ok, n := true, 0
+			AllInstrs(RT, func(in ssa.Instruction) {
+				switch u := in.(type) {
+				case *ssa.FieldAddr:
+					if ral[u.X] {
+						n++
+						if !MustPass(u, newCut().Edges(nilE...)) {
+							ok = false
+						}
+					}
+				case *ssa.Call:
+					h := StaticCallee(u)
+					if h == nil || !inModule(h) || len(h.Blocks) == 0 || len(h.Params) != len(u.Call.Args) {
+						return
+					}
+					ri, ei := -1, -1
+					for i, a := range u.Call.Args {
+						if ral[a] {
+							ri = i
+						}
+						if eal[a] {
+							ei = i
+						}
+					}
+					if ri < 0 {
+						return
+					}
+					n++
+					if ei < 0 { // the helper cannot know: the call itself must be on the success side
+						if !MustPass(u, newCut().Edges(nilE...)) {
+							ok = false
+						}
+						return
+					}
+					hn, _, _ := NilTests(h, Aliases(h.Params[ei]))
+					hr := Aliases(h.Params[ri])
+					AllInstrs(h, func(hin ssa.Instruction) {
+						if fa, isFA := hin.(*ssa.FieldAddr); isFA && hr[fa.X] && !MustPass(fa, newCut().Edges(hn...)) {
+							ok = false
+						}
+					})
+				}
+			})
+			if n > 0 {
+				c.Check(R2, FnName(RT)+"|response-touched-only-without-error", S.Pos(), ok, ifelse(ok, "the response is dereferenced (Body.Close) only on the edge respErr == nil",
+					"the response can be dereferenced although the round trip failed (it is nil then): a transport error makes RoundTrip panic instead of returning the error / retrying"))
+			}
+		}
+	}
+	// Retry-After
+	for _, f := range c.P.FuncsOfPkg(c17PkgRetry) {
+		var hdr ssa.Value
+		for _, g := range CallsTo(f, "(net/http.Header).Get") {
+			if s, isC := constString(g.Common().Args[1]); isC && s == "Retry-After" {
+				hdr = g.Value()
+			}
+		}
+		if hdr == nil || f.Signature.Results().Len() == 0 {
+			continue
+		}
+		hal := Aliases(hdr)
+		ra := map[ssa.Value]bool{}
+		for _, p := range Calls(f, func(n string) bool { return n == "strconv.ParseInt" || n == "strconv.Atoi" }) {
+			if hal[p.Common().Args[0]] {
+				for a := range c13AliasSet(ResultOf(p, 0)) {
+					ra[a] = true
+				}
+			}
+		}
+		fnm := FnName(f)
+		if len(ra) == 0 {
+			c.Undecided(R3, fnm+"|retry-after-parsed", f.Pos(), "the Retry-After header value is not parsed with strconv.ParseInt/Atoi")
+			continue
+		}
+		var derives func(v ssa.Value, d int) bool
+		derives = func(v ssa.Value, d int) bool {
+			if ra[v] || d > 5 {
+				return ra[v]
+			}
+			switch u := v.(type) {
+			case *ssa.BinOp:
+				return derives(u.X, d+1) || derives(u.Y, d+1)
+			case *ssa.Convert:
+				return derives(u.X, d+1)
+			case *ssa.ChangeType:
+				return derives(u.X, d+1)
+			case *ssa.Phi:
+				for _, e := range u.Edges {
+					if derives(e, d+1) {
+						return true
+					}
+				}
+			}
+			return false
+		}
+		posClass := func(cond ssa.Value) (bool, bool) {
+			op, other, ok := c13CmpNorm(cond, ra)
+			k, isC := c13ConstInt(other)
+			if !ok || !isC {
+				return false, false
+			}
+			switch {
+			case op == token.GTR && k == 0, op == token.GEQ && k == 1:
+				return true, false
+			case op == token.LEQ && k == 0, op == token.LSS && k == 1:
+				return false, true
+			}
+			return false, false
+		}
+		pos := c13FactEdgesOfConds(f, posClass)
+		nonPos := c13FactEdgesOfConds(f, func(cond ssa.Value) (bool, bool) { t, fl := posClass(cond); return fl, t })
+		absent := c13FactEdgesOfConds(f, c13EmptyStringClass(hal))
+		okPos, okUsed, some := true, true, false
+		// start points: the edges status == 429 (entry if the function is only given the header)
+		var starts []*ssa.BasicBlock
+		st := c13TestsOf(f, c13FieldLoads(f, c13PkgHTTP, "Response", "StatusCode", nil))
+		for _, e := range st.eq[429] {
+			starts = append(starts, e.To)
+		}
+		if len(starts) == 0 {
+			starts = append(starts, f.Blocks[0])
+		}
+		for _, a := range RetAtoms(f, 0) {
+			if derives(a.Val, 0) {
+				some = true
+				if len(pos) == 0 || c13AtomReach(f.Blocks[0], 0, a, newCut().Edges(pos...)) {
+					okPos = false
+				}
+				continue
+			}
+			for _, b := range starts {
+				if c13AtomReach(b, 0, a, newCut().Edges(nonPos...).Edges(absent...)) {
+					okUsed = false
+				}
+			}
+		}
+		c.Check(R3, fnm+"|retry-after-positive-only", f.Pos(), okPos && some, ifelse(okPos && some, "the server's Retry-After is returned as the pause only when it is positive", "the Retry-After value is never used, or is used without having been found positive"))
+		c.Check(R3, fnm+"|retry-after-not-ignored", f.Pos(), okUsed, ifelse(okUsed, "after a 429 the computed back-off is used only when Retry-After is absent or not positive", "a positive Retry-After on a 429 can be ignored in favour of the computed back-off"))
+	}
+}
